@@ -52,7 +52,8 @@ M = [
  ("c20-timeout-digest-vote-layout", "consensus/src/messages.rs", "        hasher.update(self.round.to_le_bytes());\n        hasher.update(self.high_qc.round.to_le_bytes());\n        Digest(hasher", "        hasher.update(&self.high_qc.hash);\n        hasher.update(self.round.to_le_bytes());\n        Digest(hasher", ["C20","C19"]),
 ]
 log = sys.argv[1]; filt = sys.argv[2] if len(sys.argv) > 2 else ""
-os.chdir("/repo")
+REPO = os.environ.get("MUT_REPO", "/repo"); CHECK = os.environ.get("MUT_CHECK", "/verif/check")
+os.chdir(REPO)
 for name, f, old, new, checks in M:
     if filt and filt not in name: continue
     s = open(f).read()
@@ -61,10 +62,10 @@ for name, f, old, new, checks in M:
     open(f,"w").write(s.replace(old,new))
     try:
         for c in checks:
-            r = subprocess.run(["/verif/check", c, "--tier", "quick"], capture_output=True, text=True)
+            r = subprocess.run([CHECK, c, "--tier", "quick"], capture_output=True, text=True)
             out = r.stdout + r.stderr
             verdict = "CAUGHT" if "VIOLATION" in out else ("INCONCLUSIVE" if ("INCONCLUSIVE" in out or "HARNESS" in out or r.returncode not in (0,1)) else "missed")
             m = re.findall(r"evaluations=(\d+)", out); d = re.findall(r"violation detail: \[([^\]]*)\]", out)
             open(log,"a").write(f"{name} :: {c} :: {verdict} evals={m[-1] if m else '?'} {d[0] if d else ''}\n")
     finally:
-        subprocess.run(["git","checkout","--","."], cwd="/repo")
+        subprocess.run(["git","checkout","--","."], cwd=REPO)
